@@ -710,6 +710,28 @@ func c20Eval(cs *Case, ctx *EvalCtx) []Violation {
 		if want, ok := c20Known[ax.Names[i]]; ok && want != "" {
 			if !strings.Contains(sg0.Out, want) {
 				add(ax.FreshOf[i], "response-late", "line:"+ax.Names[i], fmt.Sprintf("line %q must print %q as part of its own response; its response was %q", clip(ax.Lines[i]), clip(want), clip(sg0.Out)))
+			} else if sg0.Err != "" {
+				// ... and what a line printed before it failed comes before its diagnostic, not
+				// after it together with the next line's output
+				var so strings.Builder
+				warm, errAt := -1, -1
+				for _, e := range o.Res.Events {
+					if e.Kind == "OUT" {
+						so.WriteString(e.Data)
+						if warm < 0 {
+							if k := strings.Index(so.String(), "#W#\n"); k >= 0 {
+								warm = k + 4
+							}
+						}
+					} else if e.Kind == "ERR" && warm >= 0 && errAt < 0 {
+						errAt = so.Len()
+					}
+				}
+				if warm >= 0 && errAt >= 0 {
+					if k := strings.Index(so.String()[warm:], want); k < 0 || warm+k+len(want) > errAt {
+						add(ax.FreshOf[i], "response-late", "line:"+ax.Names[i], fmt.Sprintf("line %q prints %q and then fails: the text must be written before the diagnostic, but stdout stood at %q when the diagnostic was written", clip(ax.Lines[i]), clip(want), clip(so.String()[warm:errAt])))
+					}
+				}
 			}
 		}
 	}
